@@ -15,7 +15,7 @@ import fonts, cases, gdlgen, wildgen
 PROP = 'C08'
 VARIANTS = ['asan-direct']
 RULE = ('Hypothesis: per case one font (shipped, C06-regime or wild synthesised incl. SET_FEAT-free but pass-bit / pseudo / lazily loaded attribute users), face options in {0,2,4,6}, and a '
-        'history of 3..30 operations with 1..4 probes. Oracle: probe dump == cold-face dump (exact), face report invariant. Non-trivial: >= 1 segment on a different text was made before '
+        'history of 3..30 operations with 1..4 probes (segments kept / dropped, unhinted and hinted fonts, feature values, labels by index and by feature id, support queries incl. the supplementary-plane shadow of a probe character right before it, justification, reports); every second synthesised font carries 1-3 corrupted bytes inside Silf. Oracle: probe dump == cold-face dump (exact), face report invariant; a candidate that passes in a fresh process is replayed after the recorded request prelude of its process. Non-trivial: >= 1 segment on a different text was made before '
         'a probe and shares >= 1 glyph with it. Distinct by case JSON.')
 ASSUME = ['cold reference = fresh gr_make_face_with_ops on the same bytes and options in the same process', 'justify only on single-line segments whose direction matches the font (KF2 / C19 territory otherwise)']
 
